@@ -84,7 +84,7 @@ def _unit(bounded):
         (r"std::set<Edge> hidden_edges;", "unsigned long hidden_edges = 0;", 1, "container-api", "std::set of signed edges = mask"),
         (r"std::copy\(signed_edges\.begin\(\), signed_edges\.end\(\), std::inserter\(hidden_edges, hidden_edges\.begin\(\)\)\);",
          "hidden_edges = ALLMASK(vp_s);", 1, "container-api", "copy of the whole set"),
-        (r"for \(auto sei = signed_edges\.begin\(\); sei != signed_edges\.end\(\); \+\+sei\)", "for (size_t sei = 0; sei != vp_s; ++sei)", 1,
+        (r"for \(auto sei = signed_edges\.begin\(\); sei != signed_edges\.end\(\); sei\+\+\)", "for (size_t sei = 0; sei != vp_s; ++sei)", 1,
          "container-api", "set iteration = positions 0..s"),
         (r"auto se = \*sei;", "size_t se = sei;", 1, "container-api", ""),
         (r"auto se_v = boost::source\(se, g\);", "size_t se_v = SRC[se];", 1, "container-api", ""),
